@@ -337,7 +337,11 @@ func genC03(c *ctx) {
 	if c.thorough() {
 		stride = 4
 	}
-	chk := func() *h.Check { return &h.Check{Key: c.key(), Stride: stride} }
+	max := 40
+	if c.thorough() {
+		max = 300
+	}
+	chk := func() *h.Check { return &h.Check{Key: c.key(), Stride: stride, Max: max} }
 	c.add(&h.Event{K: "quiesce"})
 	c.add(&h.Event{K: "check", Check: chk()})
 	c.eachFile(func(pi, fi int) {
